@@ -784,7 +784,7 @@ def _parse_auto_apply_args(argspec, commandline_args, namespace, arg_mode="auto"
                        ", ".join("--%s"%s for s in matched_argnames)))
             else:
                 raise AssertionError
-            if not value:
+            if not equalsign:
                 try:
                     value = args.pop(0)
                 except IndexError:
